@@ -189,7 +189,28 @@ def summary_case(src, idx, seed, tier):
     base = corrupt.build_image(src, WORK, name, opts, size, 1)
     img = os.path.join(WORK, "s_%d.img" % idx)
     t0 = tree_of(base)
-    desc = corrupt.corrupt(base, img, r, nops=r.choice([1, 1, 2]), operators=SUMMARY_OPS)
+    if idx == 0:
+        # directed: the bit of a bitmap block that flex_bg placed in an initialised group for a BLOCK_UNINIT group
+        name, opts, size = [c for c in corrupt.IMG_CONFIGS if c[0] == "ext4_metabg48"][0]
+        base = corrupt.build_image(src, WORK, name, opts, size, 1)
+        t0 = tree_of(base)
+        fs = Fs(base)
+        shutil.copy(base, img)
+        desc = ["nothing"]
+        for g2, gd2 in enumerate(fs.groups):
+            b = gd2["inode_bitmap"]
+            g = (b - fs.first_data_block) // fs.blocks_per_group
+            if gd2["flags"] & extfmt.BG_BLOCK_UNINIT and g != g2 and not fs.groups[g]["flags"] & extfmt.BG_BLOCK_UNINIT:
+                bit = b - fs.group_first_block(g)
+                with open(img, "r+b") as f:
+                    f.seek(fs.groups[g]["block_bitmap"] * fs.bs + bit // 8)
+                    c = f.read(1)[0]
+                    f.seek(-1, 1)
+                    f.write(bytes([c & ~(1 << (bit % 8))]))
+                desc = ["block bitmap of group %d, bit %d cleared (inode bitmap of group %d, BLOCK_UNINIT)" % (g, bit, g2)]
+                break
+    else:
+        desc = corrupt.corrupt(base, img, r, nops=r.choice([1, 1, 2]), operators=SUMMARY_OPS)
     env = e2v.tool_env(src)
     rc, out = e2v.sh([os.path.join(src, "e2fsck/e2fsck"), "-fy", img], env=env, timeout=300)
     recipe = {"base": name, "mke2fs": opts, "operators": desc, "case_index": idx, "groups": Fs(base).groups_count}
@@ -204,6 +225,9 @@ def summary_case(src, idx, seed, tier):
         problems.append("not clean after repair (e2fsck -fn exit %d)" % rc2)
     cons = c02.judge_consistency(img)
     if cons:
+        if not problems and c02.only_shadow(img, cons):
+            # the one thing left is a clear on-disk bit for a metadata block of a BLOCK_UNINIT group (known finding, see C02)
+            recipe["only_uninit_shadow"] = True
         problems.append("result inconsistent: %s" % cons[:3])
     os.unlink(img)
     return recipe, problems
@@ -257,8 +281,10 @@ def run(res, replay=None):
         # no backup superblock where e2fsck looks for one: non-default group size, or a single group
         if "superblock checksum field damaged" in ops and ("-g" in recipe.get("mke2fs", []) or recipe.get("groups") == 1):
             return "c05:sb-csum-damaged-nondefault-group-size"
+        if recipe.get("only_uninit_shadow"):
+            return "c05:uninit-group-metadata-bit-clear-on-disk"
         return "c05:" + hashlib.sha256(json.dumps(recipe).encode()).hexdigest()[:12]
-    bad.sort(key=lambda x: 1 if sig(x[0]).startswith("c05:sb-") else 0)
+    bad.sort(key=lambda x: 1 if sig(x[0]).startswith(("c05:sb-", "c05:uninit-")) else 0)
     for recipe, problems in bad[:3]:
         res.violation("oracle", {"recipe": recipe, "problems": problems[:5]}, signature=sig(recipe))
     if drifts and not bad:
